@@ -242,6 +242,18 @@ Definition reg_step (s : N) (o : rop) : N * rout :=
   | RGet => (s, RChan s)
   end.
 
+(* service.Message registry (embedded in every protocol service): any number of subscriber channels, in registration
+   order; a delivery (what a service does with a state message: take MsgEvents() and send to each) sees the
+   subscribers of ONE moment — snapshot semantics; Unregister removes every occurrence of the channel *)
+Inductive mop := MReg (ch : N) | MUnreg (ch : N) | MDeliver.
+Inductive mout := MOk | MList (chs : list N).
+Definition msg_step (s : list N) (o : mop) : list N * mout :=
+  match o with
+  | MReg ch => (s ++ [ch], MOk)
+  | MUnreg ch => (filter (fun x => negb (N.eqb x ch)) s, MOk)
+  | MDeliver => (s, MList s)
+  end.
+
 (* mediator inbox (message pickup): add, status, pickup n — per recipient; fault-free part of C15's model *)
 Inductive iop := IAdd (d m : N) | IStatus (d : N) | IPickup (d : N) (n : nat)
   | IPickupFail (d : N) (n : nat).   (* batch pickup whose outbound send fails: the batch is shown to the dispatcher, the inbox keeps it *)
